@@ -234,6 +234,7 @@ fn c15_oracle(r: &TrafficRun, obs: &mut Obs) -> CaseResult {
         let mut declined_in_visit = vec![false; napps];
         let mut last_decline_t = 0i64;
         let mut last_cb_t = 0i64;
+        let mut last_resolution_t = 0i64;
         for c in evs {
             match c {
                 Cb::Tx { t, app, sent, .. } => {
@@ -245,8 +246,19 @@ fn c15_oracle(r: &TrafficRun, obs: &mut Obs) -> CaseResult {
                     if let Some((oa, oda, ot)) = outstanding {
                         if resolved == 0 {
                             // allowed only if the FDL gave up on it because some other telegram arrived
-                            let req_end = tx_x.iter().filter(|rec| rec.start_ns >= ot * 1000).map(|rec| rec.end_ns).next().unwrap_or(ot * 1000);
-                            let heard = b.trace.iter().any(|rec| rec.sender != x && rec.end_ns > req_end && rec.end_ns <= *t * 1000);
+                            // ... after the request, or lingering in the receive buffer since the station
+                            // last looked at it (a late reply to the previous request, N9)
+                            let heard = b.trace.iter().any(|rec| rec.sender != x && rec.end_ns > last_resolution_t * 1000 && rec.end_ns <= *t * 1000);
+                            let _ = ot;
+                            if !heard && std::env::var("PBVERIF_DUMP").is_ok() {
+                                for rec in b.trace.iter().filter(|rec| rec.start_ns >= (ot - 3000) * 1000 && rec.start_ns <= (*t + 1000) * 1000) {
+                                    eprintln!("  {} ns .. {} ns node{} {} {}{}", rec.start_ns, rec.end_ns, rec.sender, crate::props::c09::hex(&rec.bytes), if rec.overlapped { "OVERLAP " } else { "" }, if rec.faulted { "FAULT" } else { "" });
+                                }
+                                for c in log.iter().filter(|c| c.station() == x && c.t() >= ot - 3000 && c.t() <= *t + 100) {
+                                    eprintln!("  {:?}", c);
+                                }
+                                eprintln!("  {}", r.cfg.describe());
+                            }
                             ensure!(heard, "tx-while-outstanding", "application {} of station #{addr} was asked for a telegram at {} us while the reply to the request of application {} to #{} (sent at {} us) was still outstanding: no reply, no time-out, nothing heard", app, t, oa, oda, ot);
                             unanswered_silently += 1;
                         }
@@ -290,6 +302,7 @@ fn c15_oracle(r: &TrafficRun, obs: &mut Obs) -> CaseResult {
                     replies += 1;
                     let Some((oa, oda, _)) = outstanding else { fail!("unmatched-reply", "station #{addr}: reply {:?} delivered at {} us to application {} without an outstanding request", frame, t, app) };
                     ensure!(resolved == 0, "double-resolution", "station #{addr}: second callback (reply at {} us) for one request", t);
+                    last_resolution_t = *t;
                     ensure!(*app == oa && *ra == oda, "misrouted-reply", "station #{addr}: reply delivered to application {} with addr {} but the request was sent by application {} to #{}", app, ra, oa, oda);
                     match frame {
                         RefFrame::Sc => {}
@@ -304,6 +317,7 @@ fn c15_oracle(r: &TrafficRun, obs: &mut Obs) -> CaseResult {
                     timeouts += 1;
                     let Some((oa, oda, _)) = outstanding else { fail!("unmatched-timeout", "station #{addr}: time-out delivered at {} us to application {} without an outstanding request", t, app) };
                     ensure!(resolved == 0, "double-resolution", "station #{addr}: second callback (time-out at {} us) for one request", t);
+                    last_resolution_t = *t;
                     ensure!(*app == oa && *ra == oda, "misrouted-timeout", "station #{addr}: time-out delivered to application {} with addr {} but the request was sent by application {} to #{}", app, ra, oa, oda);
                     resolved += 1;
                 }
@@ -357,7 +371,7 @@ pub fn c13() -> Property {
             SubCheck::tape("traffic_long", "window of 20000 slot times", |t, obs| traffic_case(t, obs, Mode::C13, 20_000)),
         ],
         plan: |tier| match tier {
-            Tier::Quick => vec![Step::Pbt { kind: "traffic", cases: 300, max_len: 120 }],
+            Tier::Quick => vec![Step::Pbt { kind: "traffic", cases: 1000, max_len: 120 }],
             Tier::Thorough => vec![Step::Pbt { kind: "traffic", cases: 8000, max_len: 120 }, Step::Pbt { kind: "traffic_long", cases: 400, max_len: 120 }],
         },
         hang_is_violation: false,
@@ -379,7 +393,7 @@ pub fn c15() -> Property {
             SubCheck::tape("callbacks_long", "window of 20000 slot times", |t, obs| traffic_case(t, obs, Mode::C15, 20_000)),
         ],
         plan: |tier| match tier {
-            Tier::Quick => vec![Step::Pbt { kind: "callbacks", cases: 400, max_len: 120 }],
+            Tier::Quick => vec![Step::Pbt { kind: "callbacks", cases: 1200, max_len: 120 }],
             Tier::Thorough => vec![Step::Pbt { kind: "callbacks", cases: 10_000, max_len: 120 }, Step::Pbt { kind: "callbacks_long", cases: 400, max_len: 120 }],
         },
         hang_is_violation: false,
